@@ -844,8 +844,9 @@ Section Explicit.
                 if (is_map (o_ty (oc_opt oc)) || is_slice (o_ty (oc_opt oc))) &&
                    f_clearref (rt_fl r (o_fid (oc_opt oc)))
                 then empty_value (o_ty (oc_opt oc)) else rt_vals r (o_fid (oc_opt oc))).
-    { cbn [set_fl rt_vals]. destruct (_ && _); [|reflexivity].
-      unfold opt_empty. rewrite Hf. cbn [set_val rt_vals]. apply upd_eq. }
+    { cbn [set_fl rt_vals]. destruct (_ && _) eqn:C; [|reflexivity].
+      unfold opt_empty. rewrite Hf. cbn [set_val rt_vals]. rewrite upd_eq.
+      apply opt_empty_value_not_ptr. intros k Hk. rewrite Hk in C. discriminate C. }
     rewrite E. unfold set_flags.
     destruct (o_choices (oc_opt oc)) as [|c cs]; [reflexivity|].
     destruct arg as [v|]; [|reflexivity].
